@@ -590,7 +590,8 @@ UUIDS = [uuid.UUID(int=0), uuid.UUID(int=1), uuid.UUID("12345678-1234-5678-1234-
 PATHS = [pathlib.Path("a"), pathlib.Path("/x/y.txt"), pathlib.Path("."), pathlib.Path("../up")]
 PUREPATHS = [pathlib.PurePosixPath("a"), pathlib.PurePosixPath("/x/y.txt"), pathlib.PurePosixPath(".")]
 DATES = [datetime.date(1970, 1, 1), datetime.date(2020, 2, 29), datetime.date(1, 1, 1), datetime.date(9999, 12, 31)]
-DATETIMES = [datetime.datetime(1970, 1, 1, tzinfo=UTC), datetime.datetime(2020, 2, 29, 23, 59, 59, 999999, tzinfo=UTC),
+DATETIMES = [datetime.datetime(2020, 5, 17, 8, 30, 1, 7, tzinfo=datetime.timezone(datetime.timedelta(hours=-11))),
+             datetime.datetime(1970, 1, 1, tzinfo=UTC), datetime.datetime(2020, 2, 29, 23, 59, 59, 999999, tzinfo=UTC),
              datetime.datetime(2001, 9, 9, 1, 46, 40, tzinfo=aware(5, 30)),
              datetime.datetime(1969, 12, 31, 23, 0, 0, 1, tzinfo=aware(-8)),
              datetime.datetime(3000, 9, 25, 13, 51, 29, 607690, tzinfo=UTC), datetime.datetime(101, 7, 9, 12, 0, 0, 1, tzinfo=UTC)]
